@@ -78,7 +78,16 @@ def shard_fn(shard, nshards, seed, tier, exe, ntrees, ndoubles):
             # what is serialized (and mutated below) is a deep copy of the tree that was built; the original is destroyed first
             pre = ["DCOPY 0 1 0", "PUT 0", "ALIAS 1 0"]
             sh.count("trees.deep_copied_before_serializing")
-        if rng.random() < 0.12:
+        custom = False
+        if rng.random() < 0.05:
+            # a node whose serializer calls back into the library (it serializes another tree with the same flags): the text must carry that tree in its place
+            path, t = random_path(rng, toks)
+            if t[0] not in "nD" and path:
+                extra = ["NAV 0 5 " + " ".join(path), "SS 5 0 3"]
+                value = set_at(value, path, {b"n": [1, 2.5, b"x"]})
+                custom = True
+                sh.count("trees.node_with_reentrant_serializer")
+        elif rng.random() < 0.12:
             # a node that had a custom serializer for a while and was reset to the default one must serialize like any other node
             path, t = random_path(rng, toks)
             if t[0] not in "nD":
@@ -136,7 +145,7 @@ def shard_fn(shard, nshards, seed, tier, exe, ntrees, ndoubles):
                 sh.count("trees.mutated_in_place_before_serializing")
                 break
         cases.append((cid, [cases_b0] + pre + extra + ["S64 0", "PUT 0"]))
-        meta[cid] = ("tree", toks, value, 1 + len(pre) + len(extra))
+        meta[cid] = ("tree", toks, value, 1 + len(pre) + len(extra), custom)
     # many single doubles under PLAIN and NOZERO (the trimming logic is shape dependent)
     per = ndoubles // nshards
     tg2 = TreeGen(rng, retained=False)
@@ -149,14 +158,14 @@ def shard_fn(shard, nshards, seed, tier, exe, ntrees, ndoubles):
         toks.append("]")
         cid = "%d.d%d" % (shard, j)
         cases.append((cid, ["B 0 " + " ".join(toks), "S 0 0", "S 0 4", "S 0 20", "PUT 0"]))
-        meta[cid] = ("doubles", toks, vals, 1)
-    results, crashes = core.run_script(exe, cases, tag="c02")
+        meta[cid] = ("doubles", toks, vals, 1, False)
+    results, crashes = core.run_script(exe, cases, tag="c02", env=core.ambient_env(sh, shard))
     cmdmap = dict(cases)
     for cr in crashes:
         kind, frame = cr.summary()
         sh.violation("C02/crash/%s/%s" % (kind, frame), "driver died while serializing (%s)" % kind, {"driver": "jcdrv", "variant": "asan", "script": cmdmap[cr.cid], "stderr": cr.stderr[-3000:]})
     for cid, lines in results.items():
-        kind, toks, value, si = meta[cid]
+        kind, toks, value, si, custom = meta[cid]
         expd = refjson.dump(value)
         rep = {"driver": "jcdrv", "variant": "asan", "script": cmdmap[cid]}
         if lines[0] != "= ok":
@@ -218,9 +227,9 @@ def shard_fn(shard, nshards, seed, tier, exe, ntrees, ndoubles):
                 sh.violation("C02/%s/%s" % (bad[0], "NOZERO" if f & 4 else "other-flags"), "%s under %s: %r" % (bad[1], fname(f), text[:160]), dict(rep, flags=f, text=text[:600].decode("latin1"), expected_dump=expd[:600]))
             if not bits & 4:
                 sh.violation("C02/length-mismatch", "reported length differs from strlen under %s" % fname(f), dict(rep, flags=f))
-            if not bits & 2:
+            if not bits & 2 and not custom:
                 sh.violation("C02/reparse-not-equal/%s" % ("NOZERO" if f & 4 else "other-flags"), "json-c re-parse of its own output is not json_object_equal to the tree (%s): %r" % (fname(f), text[:160]), dict(rep, flags=f))
-            elif not bits & 1:
+            elif not bits & 1 and not custom:
                 sh.violation("C02/reserialize-differs/%s" % ("NOZERO" if f & 4 else "other-flags"), "re-serializing the re-parsed tree gives different bytes (%s): %r" % (fname(f), text[:160]), dict(rep, flags=f))
         sh.count("distinct_texts_per_tree_sum", len(texts))
         sh.nontrivial(" ".join(toks))
